@@ -79,7 +79,9 @@ def send_via_association(msg, pc, max_pdu_length, after=None):
     the application already re-uses the message object"""
     a = stub_association(max_pdu_length)
     a.send(msg, pc)
-    assert len(a.dul.sent) == 1
+    if len(a.dul.sent) != 1:
+        from . import common
+        raise common.LibError('lib: Association.send() handed %d things to the provider, not one message' % len(a.dul.sent))
     if after is not None:
         after(msg)
     return list(a.dul.sent[0])
